@@ -206,7 +206,7 @@ def run(prop, tier, seed, spec, known, scratch, only, replay, t0):
         t = dict(h.get("common", {}))
         # thorough bounds are used only where they were run clean on the
         # unchanged tree ("thorough_ok"); otherwise the quick bounds are reused
-        use = tier if (tier == "quick" or h.get("thorough_ok")) else "quick"
+        use = tier if (tier == "quick" or h.get("thorough_ok") or os.environ.get("VERIF_TRY_THOROUGH")) else "quick"
         t.update(h.get(use) or h.get("quick") or {})
         if t.get("skip"):
             continue
